@@ -114,10 +114,16 @@ def run_array_cases(cases, res):
             res.fail(c, 'C18: the extended-precision indicator is not set for n_word >= 64', expected=True, got=obs['extp']); continue
 
 def indicator(rng, res, n_cases):
-    fx = lib.impl()
+    cases = []
     for _ in range(n_cases):
         n = rng.choice([8, 32, 52, 62, 63, 64, 65, 72, 128, 256]); s = rng.random() < 0.5; nf = rng.choice([0, 1, n // 2])
-        c = {'n': n, 's': s, 'nf': nf}
+        cases.append({'n': n, 's': s, 'nf': nf})
+    run_indicator_cases(cases, res)
+
+def run_indicator_cases(cases, res):
+    fx = lib.impl()
+    for c in cases:
+        c = {k: c[k] for k in ('n', 's', 'nf')}; n, s, nf = c['n'], c['s'], c['nf']
         try:
             base = fx.Fxp(3, s, n, nf)
             routes = {'sizes': base, 'dtype': fx.Fxp(3, dtype=base.dtype), 'like': fx.Fxp(3, like=base), 'like_none': fx.Fxp(None, like=base),
@@ -146,4 +152,5 @@ def replay(payload):
     res = Result(); c = payload['case']
     if 'c' in c: run_cases([c], res)
     elif 'cs' in c: run_array_cases([c], res)
+    elif 'n' in c: run_indicator_cases([c], res)
     return {'holds': not res.failures, 'failures': res.failures}
